@@ -22,8 +22,19 @@ FINGERPRINT_UNION_HASH = "union-hash-order-sensitive"
 
 
 # ---------------------------------------------------------------------------------------------
+class _Anything:
+  """Stands in for the pytd module when only the number of negative builders is wanted."""
+
+  def __getattr__(self, name):
+    return lambda *a, **k: None
+
+
 class Env:
   """Everything imported from the repository under study."""
+
+  @staticmethod
+  def pytd_stub():
+    return _Anything()
 
   def __init__(self):
     common.bootstrap_pytype()
@@ -223,9 +234,15 @@ class K:
 def fs(x: FrozenSet[%(ty)s]) -> None: ...
 """,
 ]
-PYI_TYPES = ["int", "str", "Optional[int]" if False else "typing.Optional[int]", "typing.Union[int, str]",
+PYI_TYPES = ["int", "str", "typing.Optional[int]", "typing.Union[int, str]",
              "typing.List[typing.Union[str, int]]", "typing.Tuple[int, str]", "typing.Callable[[int], str]",
              "typing.Dict[str, typing.Any]", "typing.Literal['x', 3]", "typing.Type[int]"]
+
+# stubs the parser accepts that lie outside the dialect G (ints beyond msgpack's 64 bits)
+EDGE_PYI = [
+    ("literal-2^64", "from typing import Literal\nx: Literal[18446744073709551616]\n"),
+    ("final-below-min", "from typing import Final\ny: Final = -9223372036854775809\n"),
+]
 
 PROGRAMS = [
     """
@@ -408,9 +425,10 @@ def run(res):
       "signatures/parameters/classes/aliases), parsed .pyi texts (3 templates x type fillers), the bundled "
       "builtins/typing stubs (raw parse and the loader's resolved ASTs), ASTs emitted for generated programs via "
       "PrepareForExport; each goes SerializeAst -> Encode -> DecodeAst -> Encode. Node-level values that violate "
-      "the schema (75 hand-written classes of violation) and random mutations of real msgpack trees are decoded "
+      "the schema (%d hand-written classes of violation) and random mutations of real msgpack trees are decoded "
       "by both sides. ==/hash: all ordered pairs of a pool of type nodes with union-permuted twins. "
-      "A case is non-trivial if it contains at least one struct node; distinct by its token string.")
+      "A case is non-trivial if it contains at least one struct node; distinct by its token string."
+      % len(c12_gen.negatives(Env.pytd_stub(), Env.pytd_stub())))
   res.assumptions = [
       "msgspec's C codec implements the modelled tagged-struct msgpack semantics (validated case by case by the "
       "correspondence, not verified); gzip framing and file I/O of pickle_utils.Save/_Load are not modelled",
@@ -423,7 +441,14 @@ def run(res):
       "harness/props/c12*.py",
   ]
   t_start = time.time()
+  timing = {}
+  res.extra["timing_s"] = timing
+  def lap(name, _t=[t_start]):
+    now = time.time()
+    timing[name] = round(now - _t[0], 1)
+    _t[0] = now
   env = Env()
+  lap("import-pytype")
   # ---- 1. regenerate the schema from the live classes (fail closed) ----
   gen_path = os.path.join(common.COQ, "Generated", "C12_Schema.v")
   try:
@@ -434,8 +459,10 @@ def run(res):
   except c12_schema.TranslateError as e:
     sch = None
     res.obligation("translator:schema-regenerated", False, "fail-closed: %s" % e)
+  lap("translate-schema")
   # ---- 2. proofs ----
   common.coq_obligations(res, "C12")
+  lap("coq (incl. waiting for the shared build lock)")
   exe = None
   if sch is not None:
     try:
@@ -446,6 +473,7 @@ def run(res):
   res.trusted_base += ["Coq extraction (ExtrOcamlBasic, ExtrOcamlString) + OCaml 4.13.1 ocamlopt + "
                        "harness/ocaml/serial_driver.ml", "msgspec %s (C extension)" % env.msgspec.__version__]
   model = Model(exe) if exe else None
+  lap("extract+ocamlopt")
   r = common.rng(res.seed, "c12")
   stats = {"asts": 0, "ast_nodes": 0, "neg": 0, "neg_rejected_by_both": 0, "raw": 0, "raw_accepted": 0,
            "pool": 0, "pairs": 0, "eq_pairs": 0}
@@ -453,16 +481,22 @@ def run(res):
   hv = ["o"]          # which __hash__ the implementation follows; decided by the pool below
 
   # ---- 3. ==/hash on a pool of nodes: decides the variant, runs the law's oracle ----
-  pool = eq_hash_pool(env, r, 400 if thorough else 260)
+  pool = eq_hash_pool(env, r, 800 if thorough else 260)
   corpus_pairs = load_corpus(env, res)
   for a, b in corpus_pairs:
     pool += [a, b]
   eq_hash(env, res, model, pool, stats, mism, hv)
+  if thorough:
+    # exhaustive small scope: every ordering of every non-empty subset (<= 3 members) of four atoms, as union
+    # and as intersection, bare, inside a generic, and inside an outer union
+    eq_hash(env, res, model, exhaustive_pool(env), stats, mism, [hv[0]], decide=False)
+    res.extra["exhaustive"] = "==/hash: all orderings of all subsets (size<=3) of 4 atoms as Union/Intersection, bare, under list[...], and inside an outer union (all ordered pairs)"
+  lap("eq/hash pool")
 
   # ---- 4. whole-AST round trips ----
   cases = []
   g = c12_gen.Gen(env.pytd, r)
-  n_gen = 150 if thorough else 36
+  n_gen = 1000 if thorough else 60
   for i in range(n_gen):
     u = g.unit(r.randint(0, 3))
     cases.append(("gen%d" % i, u, {"kind": "expr", "expr": c12_gen.to_expr(u)}, False))
@@ -474,6 +508,8 @@ def run(res):
       cases.append(("pyi%d" % i, parse_pyi(env, text, name), {"kind": "pyi", "text": text, "module": name}, True))
     except Exception as e:  # pylint: disable=broad-except
       res.obligation("generator:pyi-template-parses", False, "%s: %s" % (type(e).__name__, e))
+  for label, text in EDGE_PYI:
+    cases.append(("edge:" + label, parse_pyi(env, text, "edge"), {"kind": "pyi", "text": text, "module": "edge"}, None))
   stub_dir = os.path.join(common.REPO, "pytype", "stubs", "builtins")
   for mod in ("builtins", "typing"):
     text = open(os.path.join(stub_dir, mod + ".pytd")).read()
@@ -489,15 +525,18 @@ def run(res):
     ast_case(env, res, model, hv[0], name, ast, rp, must_be_in_g, stats, mism)
   if model:
     model.flush()
+  lap("whole-AST round trips")
 
   # ---- 5. node-level: schema violations (and a few borderline conforming values) ----
   node_cases(env, res, model, hv[0], r, g, stats, mism, thorough)
   # ---- 6. msgpack trees no encoder produced ----
-  raw_cases(env, res, model, hv[0], r, g, stats, mism, 1500 if thorough else 350)
+  raw_cases(env, res, model, hv[0], r, g, stats, mism, 12000 if thorough else 700)
   if model:
     model.flush()
+  lap("node-level + mutated trees")
   # ---- 7. byte stability across processes (different hash seeds => different set iteration orders) ----
   cross_process(env, res, stats)
+  lap("cross-process bytes")
 
   res.obligation("correspondence:model-vs-msgspec", not mism and model is not None,
                  ("%d disagreements; first: %s" % (len(mism), json.dumps(mism[:3])[:1500])) if mism else
@@ -533,8 +572,13 @@ def ast_case(env, res, model, hv, name, ast, replay_obj, must_be_in_g, stats, mi
     if not real_ok and not fail:
       fail = "decoded SerializableAst differs structurally from the one encoded"
   if fail:
-    if len([v for v in res.violations]) < 3:
-      res.violation("roundtrip:" + fail.split(":")[0][:60], "%s: %s" % (name, fail), replay_obj)
+    if fail.startswith("encode: OverflowError"):
+      # msgpack has no integers beyond 64 bits; a stub may contain one (Literal[2**64], Final = 2**64)
+      res.violation("int-exceeds-64-bit", "%s: Serialize raises %s" % (name, fail), replay_obj)
+    elif len(res.violations) < 3:
+      kind = fail.split(":")[0][:60]
+      small = shrink_case(env, ast, replay_obj, kind)
+      res.violation("roundtrip:" + kind, "%s: %s" % (name, fail), small)
   if not model:
     return
   def note(kind, want):
@@ -550,10 +594,90 @@ def ast_case(env, res, model, hv, name, ast, replay_obj, must_be_in_g, stats, mi
       model.ask(["D", hv, "S:SerializableAst"] + mt + c12_gen.value_tokens(rt["sa2"]), note("decode-value", "S1"))
     else:
       model.ask(["D", hv, "S:SerializableAst"] + mt + ["!"], note("decode-fails", "F1"))
-  if must_be_in_g:
+  if must_be_in_g is None:
+    model.ask(["G"] + vt, note("edge-AST-outside-G", "0"))
+  elif must_be_in_g:
     model.ask(["G"] + vt, note("emitted/loaded-AST-in-G", "1"))
   else:
     model.ask(["G"] + vt, note("generated-AST-in-G", "1"))
+
+
+def failure_kind(env, ast):
+  try:
+    rt = roundtrip_real(env, ast, src_path="s.py", metadata=["s"])
+  except Exception as e:  # pylint: disable=broad-except
+    return "crash:" + type(e).__name__
+  fail = oracle_failure(rt)
+  if not fail and "sa2" in rt and c12_gen.value_tokens(rt["sa2"]) != c12_gen.value_tokens(rt["sa"]):
+    fail = "decoded SerializableAst differs structurally from the one encoded"
+  return fail.split(":")[0][:60] if fail else None
+
+
+def shrink_case(env, ast, replay_obj, kind, budget_s=15.0):
+  """Greedy, time-bounded: drop declarations (expr cases) or lines (pyi cases) while the same failure remains."""
+  deadline = time.time() + budget_s
+  try:
+    if replay_obj.get("kind") == "expr":
+      u = eval(replay_obj["expr"], env.ns())  # pylint: disable=eval-used
+      def bad(c):
+        return time.time() < deadline and failure_kind(env, eval(c12_gen.to_expr(c), env.ns())) == kind  # pylint: disable=eval-used
+      if not bad(u):
+        return replay_obj
+      def drop_from(node, fields):
+        changed = True
+        while changed and time.time() < deadline:
+          changed = False
+          for f in fields:
+            i = 0
+            while i < len(getattr(node, f) or ()) and time.time() < deadline:
+              items = getattr(node, f)
+              cand = node.Replace(**{f: items[:i] + items[i + 1:]})
+              if (yield cand):
+                node = cand
+                changed = True
+              else:
+                i += 1
+        return node
+      def run(gen, wrap):
+        try:
+          cand = next(gen)
+          while True:
+            cand = gen.send(bad(wrap(cand)))
+        except StopIteration as e:
+          return e.value
+      u = run(drop_from(u, ["constants", "type_params", "classes", "functions", "aliases"]), lambda c: c)
+      for ci in range(len(u.classes)):
+        def wrap(c, ci=ci):
+          return u.Replace(classes=u.classes[:ci] + (c,) + u.classes[ci + 1:])
+        c2 = run(drop_from(u.classes[ci], ["methods", "constants", "classes", "bases", "decorators", "template", "keywords"]), wrap)
+        u = wrap(c2)
+      for fi in range(len(u.functions)):
+        def wrapf(f, fi=fi):
+          return u.Replace(functions=u.functions[:fi] + (f,) + u.functions[fi + 1:])
+        f2 = run(drop_from(u.functions[fi], ["signatures", "decorators"]), wrapf)
+        u = wrapf(f2)
+      return {"kind": "expr", "expr": c12_gen.to_expr(u), "shrunk": True}
+    if replay_obj.get("kind") == "pyi":
+      lines = replay_obj["text"].split("\n")
+      def bad_text(ls):
+        if time.time() > deadline:
+          return False
+        try:
+          return failure_kind(env, parse_pyi(env, "\n".join(ls), replay_obj["module"])) == kind
+        except Exception:  # pylint: disable=broad-except
+          return False
+      if not bad_text(lines):
+        return replay_obj
+      i = len(lines) - 1
+      while i >= 0 and time.time() < deadline:
+        cand = lines[:i] + lines[i + 1:]
+        if bad_text(cand):
+          lines = cand
+        i -= 1
+      return {"kind": "pyi", "text": "\n".join(lines), "module": replay_obj["module"], "shrunk": True}
+  except Exception:  # pylint: disable=broad-except
+    pass
+  return replay_obj
 
 
 def spec_for(env, obj, r):
@@ -577,7 +701,7 @@ def node_cases(env, res, model, hv, r, g, stats, mism, thorough):
     if isinstance(obj, env.pytd.Type) and type(obj).__name__ not in ("Type",):
       items.append(("neg-in-union:" + label, obj, "F:Constant.type"))
   # positives at node level, under their own class and under unions that list them
-  for i in range(400 if thorough else 120):
+  for i in range(3000 if thorough else 250):
     obj = r.choice([lambda: g.type(r.randint(0, 3)), lambda: g.constant(2), lambda: g.signature(2),
                     lambda: g.function(1), lambda: g.klass(1), lambda: g.alias(1), lambda: g.param(2),
                     lambda: g.tparam(2)])()
@@ -674,10 +798,25 @@ def raw_cases(env, res, model, hv, r, g, stats, mism, n):
   res.extra["raw_mutation_histogram"] = kinds
 
 
-def eq_hash(env, res, model, pool, stats, mism, hv):
+def exhaustive_pool(env):
+  import itertools  # pylint: disable=import-outside-toplevel
+  p = env.pytd
+  atoms = [p.NamedType("int"), p.NamedType("str"), p.ClassType("A"), p.AnythingType()]
+  pool = []
+  for k in (1, 2, 3):
+    for sub in itertools.permutations(atoms, k):
+      u = p.UnionType(tuple(sub))
+      pool += [u, p.IntersectionType(tuple(sub)), p.GenericType(p.NamedType("list"), (u,))]
+      if k == 2:
+        pool += [p.UnionType((p.GenericType(p.NamedType("list"), (u,)), p.NamedType("x"))),
+                 p.UnionType((p.NamedType("x"), p.GenericType(p.NamedType("list"), (u,))))]
+  return pool
+
+
+def eq_hash(env, res, model, pool, stats, mism, hv, decide=True):
   p = env.pytd
   n = len(pool)
-  stats["pool"] = n
+  stats["pool"] = stats.get("pool", 0) + n
   toks = [c12_gen.value_tokens(x) for x in pool]
   eq = [[False] * n for _ in range(n)]
   hs = [hash(x) for x in pool]
@@ -690,7 +829,7 @@ def eq_hash(env, res, model, pool, stats, mism, hv):
         stats["eq_pairs"] += 1
         if hs[i] != hs[j]:
           viol.append((i, j))
-  stats["pairs"] = n * n
+  stats["pairs"] = stats.get("pairs", 0) + n * n
   for x, t in zip(pool, toks):
     res.count(common.sha(" ".join(t).encode()) if count_nodes(t) >= 1 else None)
   state = {"lines": None}
@@ -712,7 +851,9 @@ def eq_hash(env, res, model, pool, stats, mism, hv):
           n_w += 1
           if hs[i] == hs[j]:
             n_w_equal += 1
-    if n_w == 0:
+    if not decide:
+      variant = hv[0]
+    elif n_w == 0:
       res.obligation("correspondence:hash-variant-decidable", False, "the pool has no pair separating the two hash models")
       variant = "o"
     elif n_w_equal == n_w:
@@ -753,11 +894,12 @@ def eq_hash(env, res, model, pool, stats, mism, hv):
       for u in unions_in(env, x):
         if len({hash(m) for m in u.type_list}) != len(u.type_list):
           real_bad.append(i)
-    res.obligation("correspondence:eqb/hkey-vs-==/hash", n_bad == 0, "%d of %d pairs disagree" % (n_bad, n * n))
-    res.obligation("correspondence:members-hash-distinct", set(wf_bad) == set(real_bad),
+    tag = "" if decide else ":exhaustive"
+    res.obligation("correspondence:eqb/hkey-vs-==/hash" + tag, n_bad == 0, "%d of %d pairs disagree" % (n_bad, n * n))
+    res.obligation("correspondence:members-hash-distinct" + tag, set(wf_bad) == set(real_bad),
                    "model %s real %s" % (wf_bad[:5], real_bad[:5]))
-    res.extra["hash_model_incomplete_pairs"] = n_incomplete
-    res.extra["hash_separating_pairs"] = {"total": n_w, "real_hash_equal": n_w_equal}
+    res.extra["hash_model_incomplete_pairs" + tag] = n_incomplete
+    res.extra["hash_separating_pairs" + tag] = {"total": n_w, "real_hash_equal": n_w_equal}
   # ---- the law's oracle on the real objects ----
   reported_other = 0
   reported_order = 0
@@ -777,7 +919,7 @@ def eq_hash(env, res, model, pool, stats, mism, hv):
     elif reported_other < 3:
       reported_other += 1
       res.violation("eq-hash:%s" % type(a).__name__, "a == b but hash(a) != hash(b): %s / %s" % (str(a)[:120], str(b)[:120]), rp)
-  stats["law_violating_pairs_real"] = len(viol)
+  stats["law_violating_pairs_real"] = stats.get("law_violating_pairs_real", 0) + len(viol)
 
 
 def unions_in(env, x):
@@ -895,3 +1037,10 @@ def replay(res, path):
     return 0 if stats.get("cross_process_digests") == 1 else 1
   print("nothing to replay in", path, "(a failed obligation without a concrete input); rerun:", d.get("rerun"))
   return 1
+
+
+def generate():
+  """Called by harness/setup.py before the Coq build (coq/Generated is not committed)."""
+  env = Env()
+  sch = c12_schema.translate(env.pytd, env.serialize_ast, env.pickle_utils)
+  common.write_if_changed(os.path.join(common.COQ, "Generated", "C12_Schema.v"), sch.text)
